@@ -519,3 +519,66 @@ func VerifC07_LongRunningResubmitted() {
 	rt.Reach("longrun-end")
 	rt.Assert(runs == 2, "longrun/resubmission-executed-after-the-first-returned")
 }
+
+// ---- O9: a module whose start routine failed does not stall the task queue:
+// a task of that module that is waiting in the queue is not executed, and the
+// tasks of online modules behind it still run ----
+
+func VerifC07_FailedStartDoesNotStallQueue() {
+	rt.SchedYieldOnly(true)
+	online := c07Reset()
+	failure := rt.Choice("failure", 2)
+	broken := initNewModule("broken", nil, func() error {
+		if failure == 1 {
+			panic("start routine panicked")
+		}
+		return errStartFailed
+	}, nil)
+	broken.status = StatusOffline // prepared
+	brokenRan, onlineRan := false, false
+	// a task of the module is created and queued before the start attempt (e.g.
+	// by its prep routine) or after it (by code that does not know it failed)
+	kind := rt.Choice("kind", 3)
+	submit := func() {
+		tb := broken.NewTask("tb", func(context.Context, *Task) error { brokenRan = true; return nil }).MaxDelay(0)
+		switch kind {
+		case 0:
+			tb.Queue()
+		case 1:
+			tb.QueuePrioritized()
+		case 2:
+			tb.StartASAP()
+		}
+	}
+	before := rt.Bool("task-created-before-the-start-attempt")
+	if before {
+		submit()
+	}
+	// the start attempt fails
+	reports := make(chan *report, 1)
+	broken.start(reports)
+	rep := <-reports
+	rt.Assert(rep.err != nil, "failedstart/start-reports-the-failure")
+	rt.Assert(broken.Status() == StatusOffline, "failedstart/module-offline")
+	if !before {
+		submit()
+	}
+	to := online.NewTask("to", func(context.Context, *Task) error { onlineRan = true; return nil }).MaxDelay(0)
+	to.Queue()
+	go func() {
+		for {
+			taskTimeslot <- struct{}{}
+		}
+	}()
+	go taskQueueHandler()
+	rt.Quiesce(10 * time.Minute)
+	rt.Assert(!brokenRan, "failedstart/task-of-the-failed-module-not-executed")
+	rt.Assert(onlineRan, "failedstart/task-of-an-online-module-behind-it-still-runs")
+	rt.Reach("failedstart-end")
+}
+
+var errStartFailed = errorString("start failed")
+
+type errorString string
+
+func (e errorString) Error() string { return string(e) }
